@@ -4,6 +4,7 @@ go 1.16
 
 require (
 	github.com/anishathalye/porcupine v1.3.0
+	github.com/gorilla/websocket v1.5.3
 	github.com/lorenzodonini/ocpp-go v0.0.0
 )
 
